@@ -33,6 +33,7 @@ fn main() {
         ("record", "limits") => limits::record_limits(&args[3]),
         ("record", "samples") => limits::record_samples(&args[3]),
         ("replay", "chain") => chain::replay(&args[3], &args[4]),
+        ("replay", "chainik") => chain::replay_ik(&args[3], &args[4]),
         ("record", "fk") => chain::record(&args[3]),
         ("replay", "stack") => stack::replay(&args[3], &args[4]),
         ("replay", "singular") => singular::replay(&args[3], &args[4], &args[5]),
